@@ -29,6 +29,10 @@ def make_tx(seed, a, label="t"):
         if i == 0 and a.get("prevout0") == "null":
             ins.append((bytes(32), 0xFFFFFFFF, f(f"ss{i % 5}", ln), seq))      # coinbase-shaped input
             continue
+        if a.get("dupin") and i:
+            # two (all) inputs spend the SAME outpoint: consensus-invalid as a transaction, perfectly well-formed as a serialisation
+            ins.append((ins[0][0], ins[0][1], f(f"ss{i % 5}", ln), seq))
+            continue
         ins.append((f(f"txid{i % 7}", 32), (i * 3) % 5 if i else a.get("vout0", 0), f(f"ss{i % 5}", ln), seq))
     outs = []
     for i in range(a["n_out"]):
@@ -45,7 +49,21 @@ def make_tx(seed, a, label="t"):
             wit.append([f(f"w{i % 3}-{j}", ln) for j, ln in enumerate(shape)])
         if all(len(s) == 0 for s in wit):
             return None       # all-empty-witness segwit encoding is not a well-formed transaction (BIP144)
-    return Tx(a["version"], ins, outs, a["locktime"], wit)
+    T = Tx(a["version"], ins, outs, a["locktime"], wit)
+    if a.get("txid0kind") == "polyglot" and wit is not None and not (a.get("prevout0") == "null"):
+        # a segwit transaction whose bytes after the 0x00 marker ALSO read as "zero inputs, one output, locktime" (how some
+        # decoders recognise input-less raw transactions): value = n_in byte || txid[0:7] must be a sane amount and
+        # txid[7] must be the length of everything up to the locktime.  Bytes 5..7 of the first prev-txid are set accordingly.
+        n = len(T.ser()) - 19
+        if n <= 252:
+            t0 = bytearray(ins[0][0])
+            t0[3:7] = b"\x00\x00\x00\x00"
+            t0[7] = n
+            ins[0] = (bytes(t0),) + tuple(ins[0][1:])
+            if a.get("dupin"):
+                ins[1:] = [(ins[0][0], ins[0][1]) + tuple(x[2:]) for x in ins[1:]]
+            T = Tx(a["version"], ins, outs, a["locktime"], wit)
+    return T
 
 
 def lib_serialise(T):
